@@ -219,7 +219,7 @@ Section BusAgree.
 
   Lemma agree_body a : agree (perform_body react a) (a_body areact a).
   Proof.
-    destruct a as [| |q|h cc cn ex|h cc cn|]; cbn [perform_body a_body];
+    destruct a as [| |q|h cc cn ex|h cc cn| |hd ccd cnd]; cbn [perform_body a_body];
       try apply agree_refl.
     - apply agree_quit.
     - apply agree_switch.
@@ -241,7 +241,7 @@ Section BusAgree.
     destruct H2 as (l2&H2&->). cbn [app] in N.
     change ([EAct o a (s_curw s) (s_curh s)] ++ l2)
       with ([EAct o a (s_curw s) (s_curh s)] ++ l2).
-    destruct a as [| |q|h cc cn ex|h cc cn|]; cbn [perform_body] in H2;
+    destruct a as [| |q|h cc cn ex|h cc cn| |hd ccd cnd]; cbn [perform_body] in H2;
       try (injection H2 as <- <- <-; exact Logic.I).
     - (* quit_loop *)
       unfold quit_fn in H2. apply from_switch_app_r.
@@ -393,39 +393,40 @@ Proof.
 Qed.
 
 (* ---- the checker run along the model's log -------------------------------- *)
-Definition bst (s : state) (n : nat) (fr : bool) (ex : list entry) : s13 :=
-  {| b_st := s; b_fuel := n; b_inframe := fr; b_exp := ex |}.
+Definition bst (s : state) (n : nat) (fr : bool) (fw : Z) (ex : list entry) : s13 :=
+  {| b_st := s; b_fuel := n; b_inframe := fr; b_fw := fw; b_exp := ex |}.
 
-Lemma run13_expect l : forall s n fr rest,
-  run13 (bst s n fr l) (l ++ rest) = run13 (bst s n fr []) rest.
+Lemma run13_expect l : forall s n fr fw rest,
+  run13 (bst s n fr fw l) (l ++ rest) = run13 (bst s n fr fw []) rest.
 Proof.
-  induction l as [|x l IH]; intros s n fr rest; [reflexivity|].
+  induction l as [|x l IH]; intros s n fr fw rest; [reflexivity|].
   cbn [app run13]. unfold step13. cbn [bst b_exp]. rewrite entry_eqb_refl. apply IH.
 Qed.
 
-Lemma run13_procs k : forall a s n dt rest,
-  run13 (bst s n true []) (procs (s_curw s) dt a k ++ rest) = run13 (bst s n true []) rest.
+Lemma run13_procs k : forall a s n w dt rest,
+  run13 (bst s n true w []) (procs w dt a k ++ rest) = run13 (bst s n true w []) rest.
 Proof.
-  unfold procs. induction k as [|k IH]; intros a s n dt rest; [reflexivity|].
-  cbn [seq map app run13]. unfold step13 at 1. cbn [bst b_exp b_inframe b_st].
+  unfold procs. induction k as [|k IH]; intros a s n w dt rest; [reflexivity|].
+  cbn [seq map app run13]. unfold step13 at 1. cbn [bst b_exp b_inframe b_fw].
   rewrite Z.eqb_refl. cbn [andb]. apply IH.
 Qed.
 
-Lemma pokes13 ps : forall s s1 lp n rest,
+Lemma pokes13 ps : forall s s1 lp n fw rest,
   do_pokes ps s = (s1, lp) ->
-  run13 (bst s n true []) (lp ++ rest) = run13 (bst s1 n true []) rest.
+  run13 (bst s n true fw []) (lp ++ rest) = run13 (bst s1 n true fw []) rest.
 Proof.
-  induction ps as [|[k tok] ps IH]; intros s s1 lp n rest; cbn [do_pokes].
+  induction ps as [|[k tok] ps IH]; intros s s1 lp n fw rest; cbn [do_pokes].
   - intros [= <- <-]. reflexivity.
   - destruct (alookup k (s_cache s)) as [w|]; [|apply IH].
     destruct (alookup w (s_worlds s)) as [[[|] q]|] eqn:L.
     + destruct (do_pokes ps s) as [s2 l2] eqn:P. intros [= <- <-].
       cbn [app run13]. unfold step13 at 1. cbn [bst b_exp b_inframe b_st]. unfold poke13.
-      rewrite L. change (with_st s [EEv w (VPoke tok)] true (bst s n true []))
-        with (bst s n true [EEv w (VPoke tok)]).
+      rewrite L. change (with_st s [EEv w (VPoke tok)] true (bst s n true fw []))
+        with (bst s n true fw [EEv w (VPoke tok)]).
       unfold step13. cbn [bst b_exp]. rewrite entry_eqb_refl.
-      change (with_exp [] (b_inframe (bst s n true [EEv w (VPoke tok)])) (bst s n true [EEv w (VPoke tok)]))
-        with (bst s n true []). eapply IH; eauto.
+      change (with_exp [] (b_inframe (bst s n true fw [EEv w (VPoke tok)]))
+                       (bst s n true fw [EEv w (VPoke tok)]))
+        with (bst s n true fw []). eapply IH; eauto.
     + destruct (do_pokes ps _) as [s2 l2] eqn:P. intros [= <- <-].
       cbn [app run13]. unfold step13 at 1. cbn [bst b_exp b_inframe b_st]. unfold poke13.
       rewrite L. eapply IH; eauto.
@@ -434,11 +435,84 @@ Proof.
       rewrite L. eapply IH; eauto.
 Qed.
 
-Lemma frame13 fuel nps last f s s' l r fr :
+Lemma body_raises react a s s' l :
+  perform_body react a s = Some (s', l, RNorm) -> a = ANormal \/ is_direct a = true.
+Proof.
+  destruct a as [| |q|h cc cn ex|h cc cn| |hd ccd cnd]; cbn [perform_body is_direct]; auto;
+    try discriminate.
+  - unfold quit_fn. intros H. apply andthen_inv in H as (?&?&[|?]&?&H);
+      [destruct H as (?&H&?)|destruct H as (?&?&?)]; discriminate.
+  - unfold switch_fn. intros H. destruct (handle_call h s) as [[sx to] lx].
+    repeat (apply andthen_inv in H as (?&?&[|?]&?&H);
+            [destruct H as (?&H&?)|destruct H as (?&?&?); discriminate]).
+    discriminate.
+Qed.
+
+(* the model's after_action against the checker's act13: [e] is the entry that
+   announces the scripted action a, (s2, l2, r2) what performing it gives *)
+Lemma act_after fuel a e s1 w dt pos np s2 l2 r2 s' l r :
+  step13 (bst s1 fuel true w []) e = act13 (bst s1 fuel true w []) a ->
+  match a with
+  | ADirect h cc cn => a_enter (a_react_n fuel) h cc cn None s1
+  | _ => a_body (a_react_n fuel) a s1
+  end = Some (s2, l2, r2) ->
+  (r2 = RNorm -> is_direct a = true) ->
+  inv s2 -> tag_ok r2 s2 -> from_switch r2 (e :: l2) (s_curh s2) -> nok13 l = true ->
+  after_action fuel (Some (s2, e :: l2, r2)) (procs w dt (S pos) (np - S pos)) = Some (s', l, r) ->
+  exists fr', (r <> FCont -> fr' = false) /\
+    forall rest, run13 (bst s1 fuel true w []) (l ++ rest) = run13 (bst s' fuel fr' w []) rest.
+Proof.
+  intros St Hs Hn I2 T2 Tg N. unfold after_action.
+  assert (Step : forall st fr ann rest,
+            act13 (bst s1 fuel true w []) a = Some (bst st fuel fr w ann) ->
+            run13 (bst s1 fuel true w []) ((e :: ann) ++ rest) = run13 (bst st fuel fr w []) rest).
+  { intros st fr ann rest A. cbn [app run13]. rewrite St, A. apply run13_expect. }
+  destruct r2 as [|[| |h cc cn tag]].
+  - st_inv. exists true. split; [congruence|]. intros rest.
+    rewrite <- app_assoc. cbn [app].
+    change (e :: l2 ++ procs w dt (S pos) (np - S pos) ++ rest)
+      with ((e :: l2) ++ procs w dt (S pos) (np - S pos) ++ rest).
+    rewrite (Step s2 true l2); [apply run13_procs|].
+    unfold act13. cbn [bst b_st b_fuel]. rewrite Hs.
+    specialize (Hn eq_refl). destruct a; try discriminate. reflexivity.
+  - st_inv. exists false. split; [reflexivity|]. intros rest.
+    apply (Step s2 false l2). unfold act13. cbn [bst b_st b_fuel]. rewrite Hs. reflexivity.
+  - st_inv. exists false. split; [reflexivity|]. intros rest.
+    apply (Step s2 false l2). unfold act13. cbn [bst b_st b_fuel]. rewrite Hs. reflexivity.
+  - destruct (handler (react_n fuel) fuel h cc cn s2) as [[[s3 l3] r3]|] eqn:LS; [|discriminate].
+    st_inv. exists false. split; [reflexivity|]. intros rest.
+    change ((e :: l2) ++ l3) with (e :: (l2 ++ l3)).
+    apply (Step s3 false (l2 ++ l3)).
+    assert (N2 : nok13 (e :: l2) = true /\ nok13 l3 = true).
+    { change (e :: l2 ++ l3) with ((e :: l2) ++ l3) in N. apply nok13_app in N. exact N. }
+    destruct N2 as [N2 N3].
+    assert (K : tag <> None -> cn || (cc && (h =? s_curh s2)) = false).
+    { intros Ht. destruct tag as [t|]; [|congruence]. cbn [from_switch] in Tg.
+      destruct Tg as (o&ex&ww&Hin). exact (nok13_k5 _ _ _ _ _ _ _ _ N2 Hin). }
+    pose proof (handler_agree _ _ _ _ _ _ _ _ _ _ LS I2 N3 T2 K) as En.
+    unfold act13. cbn [bst b_st b_fuel]. rewrite Hs, En. reflexivity.
+Qed.
+
+Lemma nok13_prefix_after fuel s2 l2 r2 rest pre s' l r :
+  prefix pre (after_action fuel (Some (s2, l2, r2)) rest) = Some (s', l, r) ->
+  nok13 l = true -> nok13 l2 = true.
+Proof.
+  unfold prefix.
+  destruct (after_action fuel (Some (s2, l2, r2)) rest) as [[[s3 l3] r3]|] eqn:AA; [|discriminate].
+  intros E N. apply some_triple_eq in E as (_&<-&_). apply nok13_app in N as [_ N].
+  unfold after_action in AA. destruct r2 as [|[| |h cc cn tag]].
+  - apply some_triple_eq in AA as (_&<-&_). apply nok13_app in N. apply N.
+  - apply some_triple_eq in AA as (_&<-&_). exact N.
+  - apply some_triple_eq in AA as (_&<-&_). exact N.
+  - destruct (handler _ _ _ _ _ _) as [[[s4 l4] r4]|]; [|discriminate].
+    apply some_triple_eq in AA as (_&<-&_). apply nok13_app in N. apply N.
+Qed.
+
+Lemma frame13 fuel nps last f s s' l r fr fw :
   inv s -> cur_ok s -> frame_origin_ok f = true ->
   run_frame fuel nps last f s = Some (s', l, r) -> nok13 l = true ->
-  exists fr', (r <> FCont -> fr' = false) /\
-    forall rest, run13 (bst s fuel fr []) (l ++ rest) = run13 (bst s' fuel fr' []) rest.
+  exists fr' fw', (r <> FCont -> fr' = false) /\
+    forall rest, run13 (bst s fuel fr fw []) (l ++ rest) = run13 (bst s' fuel fr' fw' []) rest.
 Proof.
   intros I C Fo. unfold run_frame. cbv zeta.
   destruct (do_pokes (f_pokes f) (set_inh false s)) as [s1 lp] eqn:P.
@@ -447,88 +521,86 @@ Proof.
   set (dt := match last with None => 0 | Some l0 => f_t f - l0 end).
   set (np := np_of nps (s_curh s)).
   set (pos := eff_pos (f_org f) (f_pos f) np).
-  set (head := EClock (f_t f) (s_curw s) (s_curh s) :: procs (s_curw s) dt 0 (S pos)).
+  set (w := s_curw s).
+  set (head := EClock (f_t f) w (s_curh s) :: procs w dt 0 (S pos)).
   assert (Head : forall tail rest,
-    run13 (bst s fuel fr []) ((head ++ lp ++ tail) ++ rest)
-    = run13 (bst s1 fuel true []) (tail ++ rest)).
+    run13 (bst s fuel fr fw []) ((head ++ lp ++ tail) ++ rest)
+    = run13 (bst s1 fuel true w []) (tail ++ rest)).
   { intros tail rest. unfold head. cbn [app run13]. unfold step13 at 1.
-    cbn [bst b_exp b_st]. rewrite !Z.eqb_refl. cbn [andb].
-    change (with_st (set_inh false s) [] true (bst s fuel fr []))
-      with (bst (set_inh false s) fuel true []).
-    rewrite <- !app_assoc.
-    change (s_curw s) with (s_curw (set_inh false s)) at 1.
-    rewrite run13_procs. apply (pokes13 _ _ _ _ _ _ P). }
-  destruct (action_eq_dec (f_act f) ANormal) as [En|Ha].
-  - rewrite En. st_inv. intros _. exists true. split; [congruence|]. intros rest.
-    rewrite Head. rewrite <- Fw. apply run13_procs.
-  - assert (Hm : forall X Y : option (state * list entry * fres),
-              match f_act f with ANormal => X | _ => Y end = Y).
-    { intros X Y. destruct (f_act f); congruence. }
-    rewrite Hm. clear Hm.
+    cbn [bst b_exp b_st]. unfold w. rewrite !Z.eqb_refl. cbn [andb].
+    change {| b_st := set_inh false s; b_fuel := b_fuel (bst s fuel fr fw []); b_inframe := true;
+              b_fw := s_curw s; b_exp := [] |} with (bst (set_inh false s) fuel true (s_curw s) []).
+    rewrite <- !app_assoc. rewrite run13_procs. apply (pokes13 _ _ _ _ _ _ _ P). }
+  (* the entry announcing a scripted action makes the checker compute act13 *)
+  assert (St : forall a, step13 (bst s1 fuel true w []) (EAct (f_org f) a (s_curw s1) (s_curh s1))
+                         = act13 (bst s1 fuel true w []) a).
+  { intros a. unfold step13. cbn [bst b_exp b_inframe b_st].
+    unfold frame_origin_ok in Fo. rewrite Fo, !Z.eqb_refl. reflexivity. }
+  assert (Fin : forall x a s2 l2 r2,
+    x = Some (s2, EAct (f_org f) a (s_curw s1) (s_curh s1) :: l2, r2) ->
+    match a with
+    | ADirect h cc cn => a_enter (a_react_n fuel) h cc cn None s1
+    | _ => a_body (a_react_n fuel) a s1
+    end = Some (s2, l2, r2) ->
+    (r2 = RNorm -> is_direct a = true) ->
+    inv s2 -> tag_ok r2 s2 ->
+    from_switch r2 (EAct (f_org f) a (s_curw s1) (s_curh s1) :: l2) (s_curh s2) ->
+    prefix (head ++ lp) (after_action fuel x (procs w dt (S pos) (np - S pos))) = Some (s', l, r) ->
+    nok13 l = true ->
+    exists fr' fw', (r <> FCont -> fr' = false) /\
+      forall rest, run13 (bst s fuel fr fw []) (l ++ rest) = run13 (bst s' fuel fr' fw' []) rest).
+  { intros x a s2 l2 r2 -> Hs Hn I2 T2 Tg. unfold prefix.
+    destruct (after_action fuel _ _) as [[[s3 l3] r3]|] eqn:AA; [|discriminate].
+    st_inv. intros N. apply nok13_app in N as [_ N].
+    destruct (act_after fuel a _ s1 w dt pos np s2 l2 r2 s3 l3 r3 (St a) Hs Hn I2 T2 Tg N AA)
+      as (fr'&Hfr&Run).
+    exists fr', w. split; [exact Hfr|]. intros rest.
+    rewrite <- (app_assoc head lp l3). rewrite Head. apply Run. }
+  assert (Other : f_act f <> ANormal -> is_direct (f_act f) = false ->
+    prefix (head ++ lp)
+      (after_action fuel (perform (react_n fuel) (f_org f) (f_act f) s1)
+                    (procs w dt (S pos) (np - S pos))) = Some (s', l, r) ->
+    nok13 l = true ->
+    exists fr' fw', (r <> FCont -> fr' = false) /\
+      forall rest, run13 (bst s fuel fr fw []) (l ++ rest) = run13 (bst s' fuel fr' fw' []) rest).
+  { intros Ha Hd E N.
     destruct (perform (react_n fuel) (f_org f) (f_act f) s1) as [[[s2 l2] r2]|] eqn:Pf;
       [|discriminate].
-    pose proof Pf as Pf0. unfold perform in Pf.
+    pose proof (nok13_prefix_after _ _ _ _ _ _ _ _ _ E N) as N2.
+    pose proof (good_perform (react_n fuel) (react_n_good fuel) _ _ _ _ _ _ Pf I1 C1 eq_refl)
+      as (I2&_&Fh2&_&_&_&T2).
+    pose proof (tagging_perform (react_n fuel) (react_n_good fuel)
+                  (fun k a => proj2 (react_n_agree_tag fuel k a)) _ _ _ _ _ _ Pf I1 C1 eq_refl) as Tg.
+    unfold perform in Pf.
     apply andthen_inv in Pf as (s0&l0&r0&E0&Pb). injection E0 as <- <- <-.
-    destruct Pb as (l2'&Pb&->).
-    (* the checker reads the announcement, computes what must follow, and
-       that is what follows *)
-    assert (Step : forall st ann rest,
-      act13 (bst s1 fuel true []) (f_act f) = Some (bst st fuel false ann) ->
-      run13 (bst s1 fuel true [])
-            ((EAct (f_org f) (f_act f) (s_curw s1) (s_curh s1) :: ann) ++ rest)
-      = run13 (bst st fuel false []) rest).
-    { intros st ann rest A. cbn [app run13]. unfold step13 at 1. cbn [bst b_exp b_inframe b_st].
-      unfold frame_origin_ok in Fo. rewrite Fo, !Z.eqb_refl. cbn [andb].
-      change {| b_st := s1; b_fuel := fuel; b_inframe := true; b_exp := [] |}
-        with (bst s1 fuel true []). rewrite A. apply run13_expect. }
-    assert (Body : nok13 l2' = true ->
-              a_body (a_react_n fuel) (f_act f) s1 = Some (s2, l2', r2)).
-    { intros N2. apply (agree_body (react_n fuel) (a_react_n fuel) (react_n_good fuel)
-                          (fun k a => proj1 (react_n_agree_tag fuel k a)) _ _ _ _ _ Pb I1 C1 N2). }
-    assert (Plain : forall x2, r2 = RExn x2 -> is_sw r2 = false ->
-              Some (s2, head ++ lp ++ [EAct (f_org f) (f_act f) (s_curw s1) (s_curh s1)] ++ l2',
-                    fres_of r2) = Some (s', l, r) -> nok13 l = true ->
-              exists fr', (r <> FCont -> fr' = false) /\
-                forall rest, run13 (bst s fuel fr []) (l ++ rest) = run13 (bst s' fuel fr' []) rest).
-    { intros x2 E2 Ns. st_inv. intros N. exists false. split; [reflexivity|]. intros rest.
-      apply nok13_app in N as [_ N]. apply nok13_app in N as [_ N].
-      cbn [app] in N. unfold nok13 in N. cbn [forallb] in N. apply andb_prop in N as [_ N].
-      rewrite Head. apply Step. unfold act13. cbn [bst b_st b_fuel]. rewrite (Body N).
-      subst r2. destruct x2; [reflexivity|reflexivity|discriminate]. }
-    destruct r2 as [|[| |h cc cn tag]].
-    + (* a scripted action does not return *)
-      st_inv. intros N. exfalso.
-      destruct (f_act f) as [| |q|h cc cn ex|h cc cn|]; cbn [perform_body] in Pb; try congruence;
-        try discriminate.
-      * unfold quit_fn in Pb. apply andthen_inv in Pb as (?&?&[|?]&?&Pb);
-          [destruct Pb as (?&Pb&?)|destruct Pb as (?&?&?)]; discriminate.
-      * unfold switch_fn in Pb. destruct (handle_call h s1) as [[sx to] lx].
-        repeat (apply andthen_inv in Pb as (?&?&[|?]&?&Pb);
-                [destruct Pb as (?&Pb&?)|destruct Pb as (?&?&?); discriminate]).
-        discriminate.
-    + apply (Plain XQuit); reflexivity.
-    + apply (Plain XOther); reflexivity.
-    + destruct (handler (react_n fuel) fuel h cc cn s2) as [[[s3 l3] r3]|] eqn:LS; [|discriminate].
-      st_inv. intros N. exists false. split; [reflexivity|]. intros rest.
-      apply nok13_app in N as [_ N]. apply nok13_app in N as [_ N]. apply nok13_app in N as [N2 N3].
-      pose proof (good_perform (react_n fuel) (react_n_good fuel) _ _ _ _ _ _ Pf0 I1 C1
-                    (nok13_10 _ N2)) as (I2&_&Fh2&_&_&_&T2).
-      pose proof (tagging_perform (react_n fuel) (react_n_good fuel)
-                    (fun k a => proj2 (react_n_agree_tag fuel k a)) _ _ _ _ _ _ Pf0 I1 C1
-                    (nok13_10 _ N2)) as Tg.
-      assert (K : tag <> None -> cn || (cc && (h =? s_curh s2)) = false).
-      { intros Ht. destruct tag as [t|]; [|congruence]. cbn [from_switch] in Tg.
-        destruct Tg as (o&ex&w&Hin). rewrite Fh2. exact (nok13_k5 _ _ _ _ _ _ _ _ N2 Hin). }
-      pose proof (handler_agree _ _ _ _ _ _ _ _ _ _ LS I2 N3 T2 K) as En.
-      cbn [app] in N2. unfold nok13 in N2. cbn [forallb] in N2. apply andb_prop in N2 as [_ N2'].
-      rewrite Head. rewrite <- app_assoc. cbn [app].
-      change (EAct (f_org f) (f_act f) (s_curw s1) (s_curh s1) :: l2' ++ l3 ++ rest)
-        with ((EAct (f_org f) (f_act f) (s_curw s1) (s_curh s1) :: l2') ++ l3 ++ rest).
-      rewrite app_assoc.
-      change ((EAct (f_org f) (f_act f) (s_curw s1) (s_curh s1) :: l2') ++ l3)
-        with (EAct (f_org f) (f_act f) (s_curw s1) (s_curh s1) :: (l2' ++ l3)).
-      apply Step. unfold act13. cbn [bst b_st b_fuel]. rewrite (Body N2'). rewrite En.
-      reflexivity.
+    destruct Pb as (l2'&Pb&->). cbn [app] in *.
+    unfold nok13 in N2. cbn [forallb] in N2. apply andb_prop in N2 as [_ N2'].
+    pose proof (agree_body (react_n fuel) (a_react_n fuel) (react_n_good fuel)
+                  (fun k a => proj1 (react_n_agree_tag fuel k a)) _ _ _ _ _ Pb I1 C1 N2') as Hb.
+    refine (Fin _ (f_act f) s2 l2' r2 eq_refl _ _ I2 T2 _ E N).
+    - destruct (f_act f); try discriminate; exact Hb.
+    - intros ->. destruct (body_raises _ _ _ _ _ Pb) as [A|A]; congruence.
+    - rewrite Fh2. exact Tg. }
+  destruct (f_act f) as [| |q|h cc cn ex|h cc cn| |hd ccd cnd] eqn:Ea; cbv beta iota;
+    try (apply Other; [discriminate|reflexivity]).
+  - (* nothing *)
+    st_inv. intros _. exists true, w. split; [congruence|]. intros rest.
+    rewrite Head. apply run13_procs.
+  - (* a direct switch inside the frame *)
+    intros E N.
+    destruct (direct fuel (f_org f) hd ccd cnd s1) as [[[s2 l2] r2]|] eqn:D; [|discriminate].
+    pose proof (nok13_prefix_after _ _ _ _ _ _ _ _ _ E N) as N2.
+    unfold direct in D.
+    apply andthen_inv in D as (s0&l0&r0&E0&LS). injection E0 as <- <- <-.
+    destruct LS as (l2'&LS&->). cbn [app] in *.
+    unfold nok13 in N2. cbn [forallb] in N2. apply andb_prop in N2 as [_ N2'].
+    destruct (loop_switch_post _ _ _ _ _ _ _ _ LS I1 eq_refl) as (I2&_&_&T2&_).
+    pose proof (enter_tagging _ _ _ _ _ _ _ _ LS I1) as Tg.
+    pose proof (enter_agree _ _ _ _ None _ _ _ _ LS I1 N2' Logic.I ltac:(congruence)) as En.
+    refine (Fin _ (ADirect hd ccd cnd) s2 l2' r2 eq_refl En _ I2 T2 _ E N).
+    + intros _. reflexivity.
+    + apply (from_switch_app_r r2 [EAct (f_org f) (ADirect hd ccd cnd) (s_curw s1) (s_curh s1)]).
+      exact Tg.
 Qed.
 
 Lemma run_frame_inv fuel nps last f s s' l r :
@@ -539,49 +611,61 @@ Proof.
   destruct (do_pokes (f_pokes f) (set_inh false s)) as [s1 lp] eqn:P.
   destruct (do_pokes_post _ _ _ _ P I C) as ((I1&_&_&_&_&C1&_)&_&_).
   specialize (C1 eq_refl).
-  destruct (action_eq_dec (f_act f) ANormal) as [En|Ha].
-  - rewrite En. st_inv. auto.
-  - assert (Hm : forall X Y : option (state * list entry * fres),
-              match f_act f with ANormal => X | _ => Y end = Y).
-    { intros X Y. destruct (f_act f); congruence. }
-    rewrite Hm. clear Hm.
+  assert (Fin : forall x s2 l2 r2 rest pre,
+    x = Some (s2, l2, r2) -> inv s2 -> (is_sw r2 = false -> cur_ok s2) ->
+    prefix pre (after_action fuel x rest) = Some (s', l, r) -> inv s' /\ cur_ok s').
+  { intros x s2 l2 r2 rest pre -> I2 C2. unfold prefix, after_action.
+    destruct r2 as [|[| |h cc cn tag]]; try (st_inv; split; [exact I2|apply C2; reflexivity]).
+    destruct (handler (react_n fuel) fuel h cc cn s2) as [[[s3 l3] r3]|] eqn:LS; [|discriminate].
+    st_inv. destruct (handler_post _ _ _ _ _ _ _ _ _ LS I2) as (I3&C3&_). auto. }
+  assert (Other : forall rest pre,
+    prefix pre (after_action fuel (perform (react_n fuel) (f_org f) (f_act f) s1) rest)
+    = Some (s', l, r) -> nok10 l = true -> inv s' /\ cur_ok s').
+  { intros rest pre E _.
     destruct (perform (react_n fuel) (f_org f) (f_act f) s1) as [[[s2 l2] r2]|] eqn:Pf;
       [|discriminate].
-    assert (G : nok10 l2 = true -> inv s2 /\ (is_sw r2 = false -> cur_ok s2)).
-    { intros N2. pose proof (good_perform (react_n fuel) (react_n_good fuel) _ _ _ _ _ _ Pf I1 C1 N2)
-        as (I2&_&_&_&_&C2&_). auto. }
-    destruct r2 as [|[| |h cc cn tag]];
-      try (st_inv; intros N; destruct (G eq_refl) as [I2 C2]; split; [exact I2|apply C2; reflexivity]).
-    destruct (handler (react_n fuel) fuel h cc cn s2) as [[[s3 l3] r3]|] eqn:LS; [|discriminate].
-    st_inv. intros N. destruct (G eq_refl) as [I2 _].
-    destruct (handler_post _ _ _ _ _ _ _ _ _ LS I2) as (I3&C3&_). auto.
+    pose proof (good_perform (react_n fuel) (react_n_good fuel) _ _ _ _ _ _ Pf I1 C1 eq_refl)
+      as (I2&_&_&_&_&C2&_).
+    exact (Fin _ _ _ _ _ _ eq_refl I2 C2 E). }
+  destruct (f_act f) as [| |q|h cc cn ex|h cc cn| |hd ccd cnd] eqn:Ea; cbv beta iota;
+    try (apply Other).
+  - st_inv. auto.
+  - intros E _.
+    destruct (direct fuel (f_org f) hd ccd cnd s1) as [[[s2 l2] r2]|] eqn:D; [|discriminate].
+    unfold direct in D.
+    apply andthen_inv in D as (s0&l0&r0&E0&LS). injection E0 as <- <- <-.
+    destruct LS as (l2'&LS&->).
+    destruct (loop_switch_post _ _ _ _ _ _ _ _ LS I1 eq_refl) as (I2&C2&_).
+    exact (Fin _ _ _ _ _ _ eq_refl I2 C2 E).
 Qed.
 
-Lemma frames13 fuel nps ek fs : forall last s s' l r fr,
+Lemma frames13 fuel nps ek fs : forall last s s' l r fr fw,
   inv s -> cur_ok s -> forallb frame_origin_ok fs = true ->
   run_frames fuel nps last fs ek s = Some (s', l, r) -> nok13 l = true ->
-  inv s' /\ cur_ok s' /\
-  forall rest, run13 (bst s fuel fr []) (l ++ rest) = run13 (bst s' fuel false []) rest.
+  inv s' /\ cur_ok s' /\ exists fw',
+  forall rest, run13 (bst s fuel fr fw []) (l ++ rest) = run13 (bst s' fuel false fw' []) rest.
 Proof.
-  induction fs as [|f fs IH]; intros last s s' l r fr I C Fo; cbn [run_frames].
-  - st_inv. intros _. split; [exact I|]. split; [exact C|]. intros rest.
+  induction fs as [|f fs IH]; intros last s s' l r fr fw I C Fo; cbn [run_frames].
+  - st_inv. intros _. split; [exact I|]. split; [exact C|]. exists fw. intros rest.
     cbn [app run13]. unfold step13. cbn [bst b_exp b_st]. rewrite !Z.eqb_refl. reflexivity.
   - cbn [forallb] in Fo. apply andb_prop in Fo as [Fo1 Fo2].
     destruct (run_frame fuel nps last f s) as [[[s1 l1] r1]|] eqn:F; [|discriminate].
     assert (Stop : r1 <> FCont -> Some (s1, l1, r1) = Some (s', l, r) -> nok13 l = true ->
-              inv s' /\ cur_ok s' /\
-              forall rest, run13 (bst s fuel fr []) (l ++ rest) = run13 (bst s' fuel false []) rest).
+              inv s' /\ cur_ok s' /\ exists fw',
+              forall rest, run13 (bst s fuel fr fw []) (l ++ rest)
+                           = run13 (bst s' fuel false fw' []) rest).
     { intros Hr. st_inv. intros N.
       destruct (run_frame_inv _ _ _ _ _ _ _ _ I C F (nok13_10 _ N)) as [I1 C1].
-      destruct (frame13 _ _ _ _ _ _ _ _ fr I C Fo1 F N) as (fr1&Hfr&Run1).
-      split; [exact I1|]. split; [exact C1|]. intros rest. rewrite Run1, (Hfr Hr). reflexivity. }
+      destruct (frame13 _ _ _ _ _ _ _ _ fr fw I C Fo1 F N) as (fr1&fw1&Hfr&Run1).
+      split; [exact I1|]. split; [exact C1|]. exists fw1. intros rest.
+      rewrite Run1, (Hfr Hr). reflexivity. }
     destruct r1; try (apply Stop; discriminate).
     destruct (run_frames fuel nps (Some (f_t f)) fs ek s1) as [[[s2 l2] r2]|] eqn:FS; [|discriminate].
     st_inv. intros N. apply nok13_app in N as [N1 N2].
     destruct (run_frame_inv _ _ _ _ _ _ _ _ I C F (nok13_10 _ N1)) as [I1 C1].
-    destruct (frame13 _ _ _ _ _ _ _ _ fr I C Fo1 F N1) as (fr1&_&Run1).
-    destruct (IH _ _ _ _ _ fr1 I1 C1 Fo2 FS N2) as (I2&C2&Run2).
-    split; [exact I2|]. split; [exact C2|]. intros rest.
+    destruct (frame13 _ _ _ _ _ _ _ _ fr fw I C Fo1 F N1) as (fr1&fw1&_&Run1).
+    destruct (IH _ _ _ _ _ fr1 fw1 I1 C1 Fo2 FS N2) as (I2&C2&fw2&Run2).
+    split; [exact I2|]. split; [exact C2|]. exists fw2. intros rest.
     rewrite <- app_assoc, Run1. apply Run2.
 Qed.
 
@@ -609,8 +693,8 @@ Proof.
     { apply (enter_agree _ _ _ _ None _ _ _ _ S I N); [exact Logic.I|congruence]. }
     unfold op13. rewrite En.
     change {| b_st := set_inh false s2; b_fuel := Datatypes.S (length rs); b_inframe := false;
-              b_exp := l2 ++ [top_entry r2 (s_curw s2) (s_curh s2)] |}
-      with (bst (set_inh false s2) (Datatypes.S (length rs)) false
+              b_fw := none; b_exp := l2 ++ [top_entry r2 (s_curw s2) (s_curh s2)] |}
+      with (bst (set_inh false s2) (Datatypes.S (length rs)) false none
                 (l2 ++ [top_entry r2 (s_curw s2) (s_curh s2)])).
     assert (Et : top_entry r2 (s_curw s2) (s_curh s2) =
                  match r2 with
@@ -627,10 +711,11 @@ Proof.
     destruct (run_frames (Datatypes.S (length rs)) nps last fs ek (set_reacts rs s))
       as [[[s2 l2] r]|] eqn:FS; [|discriminate].
     injection R as <- <- <-. apply nok13_app in N as [N _].
-    destruct (frames13 _ _ _ _ _ (set_reacts rs s) _ _ _ false I C W1 FS N) as (I2&C2&Run2).
+    destruct (frames13 _ _ _ _ _ (set_reacts rs s) _ _ _ false none I C W1 FS N) as (I2&C2&fw2&Run2).
     unfold op13.
     change {| b_st := set_reacts rs s; b_fuel := Datatypes.S (length rs); b_inframe := false;
-              b_exp := [] |} with (bst (set_reacts rs s) (Datatypes.S (length rs)) false []).
+              b_fw := none; b_exp := [] |}
+      with (bst (set_reacts rs s) (Datatypes.S (length rs)) false none []).
     rewrite Run2. cbn [run13]. unfold step13. cbn [bst b_exp b_inframe b_st].
     apply (IH None s2); auto.
 Qed.
@@ -647,6 +732,7 @@ Theorem accepts_holds13 (c : rcase) :
 Proof.
   unfold wf_b, known13_b, any_entry, accepts, holds13, holds13_b. intros W K5 A.
   apply andb_prop in W as [W _]. apply andb_prop in W as [W Wf]. apply andb_prop in W as [Wn Wt].
+  apply andb_prop in Wn as [_ Wn].
   apply (ops13_ok (c_nps c) (c_ops c) None init); auto.
   - apply inv_init.
   - (* no K5 entry anywhere *)
